@@ -213,8 +213,16 @@ def main_results(d):
     m1 = set_name(load_example_model('pheno'), 'm1')
     m2 = set_name(fix_parameters(m1, ['POP_CL']), 'm2')
 
+    from pharmpy.workflows.log import Log
+    msgs = [f'step {i}: message, with "quotes" and a second clause' for i in range(12)]
+
     def res(r):
-        return None if r == 0 else dataclasses.replace(base, ofv=100.0 + r)
+        if r == 0:
+            return None
+        log = Log()
+        for i, t in enumerate(msgs):
+            log = log.log_warning(t) if i % 3 else log.log_error(t)
+        return dataclasses.replace(base, ofv=100.0 + r, log=log)
 
     def put(db, m, r):
         with db.transaction(ModelEntry.create(m, modelfit_results=res(r))) as txn:
@@ -238,6 +246,13 @@ def main_results(d):
         if not ok:
             return dict(ok=False, what=f'results retrieved: ofv {getattr(got, "ofv", None)}, latest committed: '
                                        f'{None if want == 0 else 100.0 + want}')
+        if want != 0:
+            # log messages in order and verbatim
+            gl = [(e.category, e.message) for e in got.log] if got.log is not None else None
+            wl = [('WARNING' if i % 3 else 'ERROR', t) for i, t in enumerate(msgs)]
+            if gl != wl:
+                return dict(ok=False, what=f'log of the retrieved results differs from the stored one: '
+                                           f'{[m[:8] for _, m in (gl or [])]}')
         if d['other_between']:
             g2 = get(ld.LocalModelDirectoryDatabase(tmp + '/db'), m2)
             if g2 is None or abs(g2.ofv - 105.0) > 1e-9:
